@@ -32,7 +32,7 @@ func (store *Store) buildAccountQuery(q PITFilterWithVolumes, query *bun.SelectQ
 			Join(`left join lateral (
 				select metadata
 				from accounts_metadata
-				where accounts_metadata.accounts_seq = accounts.seq and accounts_metadata.date < ?
+				where accounts_metadata.accounts_seq = accounts.seq and accounts_metadata.date <= ?
 				order by revision desc
 				limit 1
 			) accounts_metadata on true`, q.PIT)
